@@ -7,6 +7,7 @@ package main
 // rulio frame of its stack (function, file, line) = the site.
 
 import (
+	"os"
 	"bytes"
 	"encoding/json"
 	"fmt"
@@ -116,6 +117,7 @@ func (e *c13Core) do(op map[string]interface{}) map[string]interface{} {
 
 var c13Systems sync.Map // "indexed" | "linear" -> *c13SysBox
 var c13LocCounter int64
+var c13SysMu sync.Mutex
 
 type c13SysBox struct {
 	sys *sys.System
@@ -123,8 +125,17 @@ type c13SysBox struct {
 	svc *service.HTTPService
 }
 
-func c13System(kind string) (*c13SysBox, error) {
-	if v, ok := c13Systems.Load(kind); ok {
+// c13System: one System per (state kind, configuration). conf (optional): {"ttl": "never" (every request loads the location
+// afresh) | "forever", "cronLimit": n (capacity of the built-in cron)}.
+func c13System(kind string, conf0 map[string]interface{}) (*c13SysBox, error) {
+	key := kind
+	if conf0 != nil {
+		bs, _ := json.Marshal(conf0)
+		key = kind + string(bs)
+	}
+	c13SysMu.Lock()
+	defer c13SysMu.Unlock()
+	if v, ok := c13Systems.Load(key); ok {
 		return v.(*c13SysBox), nil
 	}
 	ctx := core.NewContext("c13")
@@ -134,7 +145,15 @@ func c13System(kind string) (*c13SysBox, error) {
 	cont := sys.ExampleSystemControl()
 	cont.Timing = false
 	cont.LocationTTL = sys.Forever
-	cr, _ := cron.NewCron(nil, time.Second, "c13cron", 100000)
+	if t, _ := conf0["ttl"].(string); t == "never" {
+		cont.LocationTTL = sys.Never
+		os.Setenv("RULES_CRON_OVERRIDE", "verif") // NewSystem refuses an in-memory cron next to a finite TTL unless told otherwise
+	}
+	limit := 100000
+	if l, ok := conf0["cronLimit"].(float64); ok && l > 0 {
+		limit = int(l)
+	}
+	cr, _ := cron.NewCron(nil, time.Second, "c13cron", limit)
 	go cr.Start(ctx)
 	cont.DefaultLocControl = &core.Control{MaxFacts: 1000, Verbosity: core.NOTHING, NoTiming: true}
 	s, err := sys.NewSystem(ctx, *conf, *cont, &cron.InternalCron{Cron: cr})
@@ -146,7 +165,7 @@ func c13System(kind string) (*c13SysBox, error) {
 		return nil, err
 	}
 	box := &c13SysBox{sys: s, ctx: ctx, svc: svc}
-	c13Systems.Store(kind, box)
+	c13Systems.Store(key, box)
 	return box, nil
 }
 
@@ -472,7 +491,8 @@ func c13Run(c map[string]interface{}) interface{} {
 		}
 		env = &c13Core{s}
 	case "sys", "http":
-		box, err := c13System(state)
+		sysconf, _ := c["sysconf"].(map[string]interface{})
+		box, err := c13System(state, sysconf)
 		if err != nil {
 			return errS("setup:" + err.Error())
 		}
